@@ -1,5 +1,6 @@
 # -*- coding: utf-8 -*-
 
+import copy
 import functools as ft
 from typing import (
     Dict,
@@ -579,14 +580,11 @@ class ASTTypeBuilder:
         name = scalar_type.name
         extensions = self._collect_extensions(name, _ast.ScalarTypeExtension)
 
-        return ScalarType(
-            name,
-            description=scalar_type.description,
-            serialize=scalar_type._serialize,
-            parse=scalar_type._parse,
-            parse_literal=scalar_type._parse_literal,
-            nodes=scalar_type.nodes + extensions,  # type: ignore
-        )
+        # Scalar types carry behaviour (possibly as overridden methods of a
+        # subclass, e.g. RegexType) which only a copy preserves.
+        extended = copy.copy(scalar_type)
+        extended.nodes = scalar_type.nodes + extensions  # type: ignore
+        return extended
 
     def _extend_argument(self, argument: Argument) -> Argument:
         return Argument(
